@@ -118,6 +118,28 @@ class K:
         cross("repr:K")
         return "K()"
 
+@icontract.invariant(lambda self: c("s0", self), check_on=icontract.InvariantCheckEvent.ALL)
+class KS:
+    def __init__(self):
+        self.v = 1
+    def __repr__(self):
+        cross("repr:KS")
+        return "KS()"
+
+def guard(x):
+    # user code that makes a checked call itself and survives whatever it raises
+    cross("guard")
+    try:
+        f(x)
+    except BaseException:
+        pass
+    return True
+@icontract.require(lambda x: guard(x))
+@icontract.ensure(lambda result: c("nq", result))
+def nest(x):
+    cross("body:nest")
+    return R
+
 class WB(icontract.DBC):
     @icontract.require(lambda self, x: c("wb", x))
     def w(self, x):
@@ -149,6 +171,8 @@ CALLS = {
     "K": (False, ["i0", "i1"]),
     "m": (False, ["i0", "i1", "mp", "mq"]),
     "am": (True, ["i0", "i1", "amp", "amq"]),
+    "set": (False, ["s0"]),
+    "nest": (False, ["p0", "q1", "nq"]),
     "w": (False, ["wb", "wc"]),
     "aw": (True, ["awb", "awc"]),
 }
@@ -161,6 +185,7 @@ class Driver:
         self.ns["T"].clear()
         self.obj = core.fresh_ctx_run(self.ns["K"], self.ns["Arg"]())
         self.wc = core.fresh_ctx_run(self.ns["WC"])
+        self.ks = core.fresh_ctx_run(self.ns["KS"])
 
     def invoke(self, call, obj):
         ns = self.ns
@@ -175,6 +200,11 @@ class Driver:
             return obj.m(x)
         if call == "am":
             return obj.am(x)
+        if call == "set":
+            self.ks.v = x
+            return self.ns["R"]
+        if call == "nest":
+            return self.ns["nest"](x)
         if call == "w":
             return self.wc.w(x)
         if call == "aw":
@@ -334,8 +364,18 @@ def check_scenario(drv, pristine, scen, acc, second=None):
         # (2) the fault must surface
         fired = injected is not None
         if fired:
+            inside_guard = False
+            if call == "nest" and plan[0] == "cross" and "guard" in base_trace and "body:nest" in base_trace:
+                inside_guard = base_trace.index("guard") < plan[1] < base_trace.index("body:nest")
             if plan[2] == "close":
                 pass  # closing returns nothing to the caller; only the re-arming is judged
+            elif inside_guard:
+                # the user's own guard (inside a condition) catches whatever its inner checked call raises:
+                # the outer call must end exactly as without the fault
+                if summarize(outcome) != summarize(base_outcome):
+                    viol("fault_changed_outer_outcome", "fault {} at {!r} inside the guarded inner call: outer outcome {} instead of {}".format(
+                        plan[2], where, summarize(outcome), summarize(base_outcome)))
+                    continue
             elif outcome[0] != "exc":
                 # an Exception raised by a value __repr__ may be absorbed by reprlib; the call must then end as without the fault
                 # (a normal return is only possible when the message was built for a precondition group that was later overruled)
@@ -395,12 +435,11 @@ def run(tier, t0):
     sc = scenarios(tier)
     items = list(sc)
     if tier == "thorough":
-        # sequences of two faulted calls: the second one a BaseException/Exception at each of its first 12 crossings
+        # sequences of two faulted calls: the second one faulted at each of its first 8 crossings
         for s in sc:
             for s2 in sc:
-                for idx in range(0, 12):
-                    for kind in ("base", "exc"):
-                        items.append((s, (s2[0], s2[1], idx, kind)))
+                for idx in range(0, 8):
+                    items.append((s, (s2[0], s2[1], idx, "base" if idx % 2 == 0 else "exc")))
     tot = core.merge(core.pmap(work, core.rotate(items)))
     return core.finish(
         PROP, tier, tot, t0,
@@ -411,7 +450,7 @@ def run(tier, t0):
              "at every suspension of a hand-driven coroutine){}; after each: probe calls of every callable (all true + each "
              "condition falsy) in the same context, compared with the pristine-state observations; the surfaced exception must be "
              "or chain the injected one; non-trivial = every case".format(
-                 "; plus all pairs (first faulted call ; second call faulted at one of its first 12 crossings) before the probes" if tier == "thorough" else ""),
+                 "; plus all pairs (first faulted call ; second call faulted at one of its first 8 crossings, BaseException and Exception alternating) before the probes" if tier == "thorough" else ""),
         assumptions=["faults are injected at entries into user code and at suspension points, not between arbitrary bytecodes",
                      "a failing value __repr__ raising an Exception may be absorbed by reprlib (then the violation must still be reported)"],
         bounds={"scenarios": len(sc), "items": len(items), "fault_sequence_length": 1 if tier == "quick" else 2},
